@@ -288,3 +288,24 @@ PLANS["C20"] = dict(
     assumptions=["panics are recovered and recorded with the innermost orb function on the stack as the site"],
     trusted_base=["TLC 2026.09.04", "CommunityModules Json/IOUtils", "crypto/sha1"],
 )
+
+# ---- C13 -------------------------------------------------------------------------------------------
+
+
+def run_c13(ctx):
+    ctx.mc("TileAlgebraMC", "TileAlgebraMC_%s.cfg" % ctx.tier, note="ancestor-based algebra consistent for every tile to zoom 4 (5) and every pair to zoom 3 (4)")
+    shards = ctx.gen("tile")
+    ctx.validate("Tile_Trace", shards)
+    ctx.exhaustive = True
+    ctx.notes.append("exhaustive part: every tile to zoom 5 (quick) / 8 (thorough), every pair to zoom 3 / 4")
+
+
+PLANS["C13"] = dict(
+    run=run_c13, signature=sig_default,
+    technique="TLA+ tile algebra defined from the ancestor relation; TLC checks its laws on all small tiles/pairs and recomputes every recorded result of the real maptile functions from it; float parts judged on IEEE ranks / bit ids",
+    level_text="TLC checks the algebra (children, parent, containment = ancestor, shared parent = deepest common ancestor, range = descendant corners, quad digits injective and invertible) for every tile to zoom 4 (5) and every pair to zoom 3 (4), then recomputes from it every recorded result of Valid, Quadkey/FromQuadkey, Parent, Children, Siblings, Range, ChildrenInZoomRange, Contains, SharedParent for every tile to zoom 5 (8), every pair to zoom 3 (4) and seeded tiles to zoom 30 with adversarial bit patterns (high bits, x and y differing at different levels). For points over lon [-180,180] incl. +-180, the clamp latitudes, poles and tile-bound corners, TLC requires At to return a valid tile whose bound contains the point (on IEEE ranks) and the clamped row beyond +-85.0511; the centre of every tile maps back to it; neighbouring tiles' shared edges and the children's edges are bit-identical to the parent's.",
+    level_note="Quadkeys are compared as base-4 digit sequences (the harness splits the uint64). The float parts are relations on ranks/bit ids of the code's own outputs (exp/atan/log are not specified). Trusted: TLC, Json module, rank and bit interning.",
+    rule="one event = one tile / pair / point / edge-set observation; all events non-trivial; distinct = distinct event text",
+    assumptions=["zoom <= 30 so that coordinates fit TLC's 32-bit integers"],
+    trusted_base=["TLC 2026.09.04", "CommunityModules Json/IOUtils", "harness rank/bit interning"],
+)
